@@ -102,6 +102,11 @@ def check_case(case):
                 t["k"], t["a"], t["lim"], t["r"], t["pc"] = "ILoad", dict(P["IL"][1]), None, "", None
                 s.change_comp(t["n"], comp=make_comp(t), rail="kc_" + t["n"])
         res.classes.add("kind-changed")
+    if case.get("rej"):   # every documented refusal (incl. a same-name change_comp whose rail collides) before the report
+        from ..sysmodel import rejected_edits
+        if rejected_edits(s, spec):
+            res.classes.add("refused-call-accepted")
+            return res
     res.stats["transitions"] += len(spec["comps"]) + 2
     try:
         df, _ = quiet_call(s.solve, vtol=1e-6, itol=1e-6)  # explicit, so that the two methods cannot differ through their defaults
@@ -249,6 +254,7 @@ def gen_cases(tier):
                     yield dict(fam="tree", f=f, pal=pal, mask=list(mask), by_rail=False, sumnames=True)
                 if any(mask) and n <= 2:
                     yield dict(fam="tree", f=f, pal=pal, mask=list(mask), by_rail=True, blankrails=True)
+                    yield dict(fam="tree", f=f, pal=pal, mask=list(mask), by_rail=False, rej=True)
                 if n <= 2:
                     for kc in ("load2series", "series2load"):
                         for af in (False, True):
